@@ -190,7 +190,7 @@ def make_blocks(nb, with_F=True, with_M=True, graft=None, tag=""):
     return bl
 
 
-def run_group_step(h, blocks, alias=False, graft_obj=None, fake=None, graft_log=None):
+def run_group_step(h, blocks, alias=False, graft_obj=None, fake=None, graft_log=None, graft_local=None):
     """Calls the real _per_group_step_impl.  Returns (stub, grafting list object)."""
     ds, pl, dd = modules()
     from distributed_shampoo import shampoo_types as st
@@ -209,6 +209,7 @@ def run_group_step(h, blocks, alias=False, graft_obj=None, fake=None, graft_log=
         graft._beta2, graft._epsilon, graft._use_bias_correction = h["beta2g"], h["eps_g"], h["bias_g"]
         graft._bias_correction2 = SymTensor.real_scalar(SymReal("bc2g_prev"))
         graft._masked_preconditioner_list = tuple(b["V"] for b in blocks)
+        graft._local_preconditioner_list = tuple(graft_local) if graft_local is not None else graft._masked_preconditioner_list
         # object invariant of AdagradPreconditionerList: the correction stays 1.0 unless (flag and beta2 < 1)
         assume(z3.Implies(z3.Not(z3.And(h["bias_g"].t, h["beta2g"].t < 1)), z3.Real("bc2g_prev") == 1))
         assume(z3.Real("bc2g_prev") > 0)
